@@ -257,6 +257,7 @@ pub fn run(ctx: &mut Ctx, rep: &mut Report) {
                         origin: format!("c06 score L={} M={}", len, m),
                         wrap_override: None,
                         spare_rows: 0,
+                        trimmed_rows: 0,
                     };
                     if !crumb(|| wrap("C01", case.json(None))) {
                         continue;
@@ -293,6 +294,7 @@ pub fn run(ctx: &mut Ctx, rep: &mut Report) {
                         origin: format!("c06 score long motif L={} M={}", len, m),
                         wrap_override: None,
                         spare_rows: 0,
+                        trimmed_rows: 0,
                     };
                     if !crumb(|| wrap("C01", case.json(None))) {
                         continue;
@@ -406,6 +408,7 @@ pub fn run(ctx: &mut Ctx, rep: &mut Report) {
                         origin: format!("c06 gather L={} M={}", len, m),
                         wrap_override: None,
                         spare_rows: 0,
+                        trimmed_rows: 0,
                     };
                     if !crumb(|| wrap("C01", case.json(None))) {
                         continue;
@@ -509,7 +512,7 @@ pub fn run(ctx: &mut Ctx, rep: &mut Report) {
                 let matrix = c08::wide_matrix(m, 0);
                 let mut seq = c08::wide_sequence(&matrix);
                 seq.extend(model::digit_pattern(extra, 5, 0));
-                let case = c08::Case { alpha: "dna", matrix, seq, origin: format!("c06 u8 M={} extra={}", m, extra) };
+                let case = c08::Case { alpha: "dna", matrix, seq, origin: format!("c06 u8 M={} extra={}", m, extra), pre_wrap: None };
                 if !crumb(|| wrap("C08", case.json(None))) {
                     continue;
                 }
